@@ -78,6 +78,53 @@ def _all_variants(mod):
     return vs
 
 
+def _seed_worker(args):
+    """apply a kept seeded patch (/verif/seeded/<id>/patch.diff) to a scratch copy and run the property's rules"""
+    import re
+    import shutil
+    import subprocess
+    pid, root, sid = args
+    os.environ["HSA_REPO"] = root
+    mod = load_prop(pid)
+    patch = os.path.join(str(report.VERIF), "seeded", sid, "patch.diff")
+    scratch = None
+    try:
+        text = open(patch).read()
+        touched = sorted(set(re.findall(r"^\+\+\+ b/(\S+)", text, re.M)) | set(re.findall(r"^--- a/(\S+)", text, re.M)))
+        rewritten = {}
+        for rel in touched:
+            pth = os.path.join(root, rel)
+            rewritten[rel] = open(pth).read() if os.path.exists(pth) else ""
+        scratch = make_scratch(root, rewritten)
+        r = subprocess.run(["git", "apply", "-p1", patch], cwd=str(scratch), capture_output=True, text=True)
+        if r.returncode != 0:
+            return {"variant": "seed " + sid, "twin": False, "status": "skipped",
+                    "why": "patch does not apply to the current tree: " + r.stderr.strip()[:120], "expect": [pid]}
+        repo = Repo(scratch)
+        obs, _summary, errors = run_rules(mod, repo, None)
+        keys = sorted({(o.rule, o.key) for o in obs if not o.ok})
+        return {"variant": "seed " + sid, "twin": False, "status": "ran", "fired": sorted({k[0] for k in keys}),
+                "keys": keys, "errors": [list(e) for e in errors], "expect": ["*"]}
+    except Exception as e:
+        return {"variant": "seed " + sid, "twin": False, "status": "crashed", "why": repr(e), "expect": [pid]}
+    finally:
+        if scratch is not None:
+            drop_scratch(scratch)
+
+
+def _seeds_for(pid):
+    import glob
+    out = []
+    for mp in sorted(glob.glob(os.path.join(str(report.VERIF), "seeded", "*", "meta.json"))):
+        try:
+            m = json.load(open(mp))
+        except ValueError:
+            continue
+        if pid in m.get("detected_by", []):
+            out.append(m["seed"])
+    return out
+
+
 def _variant_worker(args):
     pid, root, idx = args
     os.environ["HSA_REPO"] = root
@@ -138,8 +185,11 @@ def run_variants(pid, mod, root, baseline_keys, seed):
         return [], []
     order = list(range(len(vs)))
     results = []
-    with ProcessPoolExecutor(max_workers=min(16, len(vs))) as ex:
+    seeds = _seeds_for(pid)
+    with ProcessPoolExecutor(max_workers=min(16, len(vs) + len(seeds))) as ex:
         for r in ex.map(_variant_worker, [(pid, str(root), i) for i in order]):
+            results.append(r)
+        for r in ex.map(_seed_worker, [(pid, str(root), sid) for sid in seeds]):
             results.append(r)
     problems = []
     for r in results:
@@ -157,7 +207,10 @@ def run_variants(pid, mod, root, baseline_keys, seed):
                 problems.append("twin %s is not silent: %s %s" % (
                     r["variant"], r["new_violations"], r["errors"]))
         else:
-            if not (new_rules & set(r["expect"])):
+            if r["expect"] == ["*"]:
+                if not new_keys:
+                    problems.append("kept seeded change %s is no longer detected (sensitivity lost)" % r["variant"])
+            elif not (new_rules & set(r["expect"])):
                 problems.append(
                     "variant %s not detected (expected one of %s, new violations: %s, errors: %s)"
                     % (r["variant"], r["expect"], r["new_violations"],
